@@ -49,3 +49,25 @@ def register_p(reg, prop):
                                  "implies(ncalls('set_result') == 1, called_with('set_result', lambda recv, arg0: recv == fut and arg0 == obj))"]}},
         # no exception is admitted: InvalidStateError escaping here aborts the handling of the rest of the message
         ensures=["L0_left_early == 0"], frame=[]))
+
+
+    # a request future is filed under (local id, update type) - the key resolve_futures / cancel_futures look under - and removes
+    # itself from that list when it is done
+    reg.add_fn(FnContract(
+        key="hippolyzer.lib.client.object_manager:RegionObjectsState.register_future", relpath=OREL,
+        qualname="RegionObjectsState.register_future", cls="RegionObjectsState", prop=prop,
+        params={"local_id": "Int", "future_type": "Opaque:Any"}, param_names=["local_id", "future_type"], returns="Opaque:Any",
+        externals={"asyncio.Future": {"returns": "Opaque:Any", "record_as": "new_future", "record_result": True, "doc": "fresh future"},
+                   "self._object_futures.get": {"returns": "Opaque:FutList", "record_as": "get", "record_result": True,
+                                                "doc": "list already filed under the key, or a new empty list"},
+                   "local_futs.append": {"record_as": "append", "doc": "list append"},
+                   "fut.add_done_callback": {"record_as": "on_done", "doc": "done callback"}},
+        ensures=["ncalls('new_future') == 1 and called_with('new_future', lambda result: result == RESULT)",
+                 "ncalls('get') == 1 and called_with('get', lambda arg0: arg0[0] == local_id and arg0[1] == future_type)",
+                 "ncalls('append') == 1 and called_with('append', lambda arg0: arg0 == RESULT)",
+                 # the (possibly new) list is (re)filed under the same key
+                 "ncalls('store:self._object_futures') == 1",
+                 "implies(ncalls('store:self._object_futures') == 1, called_with('get', lambda arg0, result: "
+                 "stored_key('store:self._object_futures') == arg0 and stored_value('store:self._object_futures') == result))",
+                 "ncalls('on_done') == 1"],
+        frame=["_object_futures"]))
